@@ -183,3 +183,14 @@ Theorem C10_smiles_roundtrip_under_rdkit_contract :
       match graph_to_mol (mol_to_graph m false false) with Some w => write w | None => None end = Some (canon s).
 Proof. exact smiles_roundtrip_under_contract. Qed.
 Print Assumptions C10_smiles_roundtrip_under_rdkit_contract.
+
+(** Heavy-atom skeleton, implicit direction: for EVERY networkx graph (any explicit hydrogens, also outside [h_dom])
+    h_to_implicit keeps every non-hydrogen node with element, aromaticity, charge, atom_map and typesGH untouched (only
+    hcount may change) and keeps the bond dictionary between any two nodes that are not hydrogens. *)
+Theorem C10_h_implicit_skeleton :
+  forall g : gr, gwfb g = true ->
+    let F := h_to_implicit g in
+    (forall n a, label g n = Some a -> el_is_H a = false -> exists a', label F n = Some a' /\ same_but_hc a' a) /\
+    (forall u v, is_H g u = false -> is_H g v = false -> adj F u v = adj g u v).
+Proof. exact h_implicit_skeleton. Qed.
+Print Assumptions C10_h_implicit_skeleton.
